@@ -489,6 +489,11 @@ pub fn call_budget_for(declared_objects: usize, blocks: usize) -> usize {
 // generators
 
 pub fn gen_codec(rng: &mut Rng, heavy_ok: bool) -> Codec {
+	gen_codec_ext(rng, heavy_ok, false)
+}
+
+/// `xz_high`: allow xz presets 7-9 (only where a scenario compresses a handful of blocks)
+pub fn gen_codec_ext(rng: &mut Rng, heavy_ok: bool, xz_high: bool) -> Codec {
 	match rng.below(if heavy_ok { 12 } else { 9 }) {
 		0 | 1 => Codec::Null,
 		2 | 3 => Codec::Deflate(if rng.bool() { 0 } else { 1 + rng.below(9) as u8 }),
@@ -503,7 +508,7 @@ pub fn gen_codec(rng: &mut Rng, heavy_ok: bool) -> Codec {
 		// presets 7-9 cost 0.2-0.7 GiB of encoder memory per block: rare
 		_ => Codec::Xz(if rng.bool() {
 			0
-		} else if rng.chance(1, 12) {
+		} else if xz_high && rng.chance(1, 12) {
 			7 + rng.below(3) as u8
 		} else {
 			1 + rng.below(6) as u8
@@ -615,7 +620,7 @@ pub fn gen_schema_for(rng: &mut Rng, p: &SpecProfile) -> Ty {
 }
 
 pub fn gen_filespec(rng: &mut Rng, p: &SpecProfile) -> FileSpec {
-	let codec = gen_codec(rng, p.heavy_codecs);
+	let codec = gen_codec_ext(rng, p.heavy_codecs, p.big_blobs);
 	// big-blob scenarios: schema = bytes, block sizes on internal buffer boundaries
 	if p.big_blobs && rng.chance(1, 6) {
 		return gen_blob_spec(rng, codec);
@@ -625,7 +630,7 @@ pub fn gen_filespec(rng: &mut Rng, p: &SpecProfile) -> FileSpec {
 	let vcfg = ValCfg {
 		max_len: 1 + rng.usize(8),
 		max_depth: 4,
-		budget: 6 + rng.below(40) as i32,
+		budget: 6 + rng.below(40) as i32, str_boost: 0
 	};
 	let n_ops = 1 + rng.usize(p.max_ops);
 	let mut ops = vec![];
